@@ -16,6 +16,9 @@ package main
 //   - a publication marker `callCmd.@done` (mode "P") is carried like a lock after a statement
 //     `x.done()` / `x.cancel()` on a callCmd: accesses after it in the same function come after
 //     close(doneChan).
+// Watch list: for the structs marked `all` EVERY field except the synchronisation objects themselves is
+// watched (the list is read from the struct declaration on every run, so a field added later is in the
+// table at once and needs a declared discipline); package-level `var X = func...` literals are walked too.
 // No callee inlining: a function that is only called with a lock held is named as such by the
 // declared guard map in Lean (lean/Teleport/Props/C14.lean), not here.
 //
@@ -66,6 +69,11 @@ func init() {
 type guardWatch struct {
 	dir, typ string
 	fields   []string
+	// all: watch EVERY field of the struct (the declared list `fields` is then only a presence
+	// requirement) except the synchronisation objects themselves (sync.Mutex / sync.RWMutex fields are
+	// the locks; sync.WaitGroup fields are watched through call patterns). A field added to the struct
+	// later is watched automatically and must be given a discipline in Conc.guardOf (fails closed).
+	all bool
 	// embedded field name -> promoted method names (a call x.M() with M not declared on typ in
 	// the package is an implicit read of the embedded field)
 	promoted map[string][]string
@@ -74,18 +82,23 @@ type guardWatch struct {
 var netConnMethods = []string{"Read", "Write", "Close", "LocalAddr", "RemoteAddr", "SetDeadline", "SetReadDeadline", "SetWriteDeadline"}
 
 var guardWatches = []guardWatch{
-	{dir: "", typ: "session", fields: []string{"status", "seq", "didCloseNotify", "sessionAge", "contextAge", "socket",
+	{dir: "", typ: "session", all: true, fields: []string{"status", "seq", "didCloseNotify", "sessionAge", "contextAge", "socket",
 		"protoFuncs", "redialForClientLocked", "callCmdMap", "closeNotifyCh"}},
-	{dir: "", typ: "callCmd", fields: []string{"stat", "inputMeta", "result", "inputBodyCodec", "cost"}},
-	{dir: "socket", typ: "socket", fields: []string{"Conn", "readerWithBuffer", "protocol", "id", "swap", "curState", "fromPool"},
+	{dir: "", typ: "callCmd", all: true, fields: []string{"stat", "inputMeta", "result", "inputBodyCodec", "cost"}},
+	{dir: "socket", typ: "socket", all: true, fields: []string{"Conn", "readerWithBuffer", "protocol", "id", "swap", "curState", "fromPool"},
 		promoted: map[string][]string{"Conn": netConnMethods}},
-	{dir: "", typ: "SessionHub", fields: []string{"sessions"}},
-	{dir: "", typ: "peer", fields: []string{"listeners", "closeCh", "tlsConfig"}},
+	{dir: "", typ: "SessionHub", all: true, fields: []string{"sessions"}},
+	{dir: "", typ: "peer", all: true, fields: []string{"listeners", "closeCh", "tlsConfig"}},
 	{dir: "", typ: "pluginSingleContainer", fields: []string{"plugins"}},
 	{dir: "", typ: "PluginContainer", fields: []string{"left", "middle", "right", "refreshTree"}},
 	// the thrift protocol object shared by Pack and Unpack (every mention is a use of the object)
-	{dir: "proto/thriftproto", typ: "tBinaryProto", fields: []string{"tProtocol"}},
-	{dir: "proto/thriftproto", typ: "tStructProto", fields: []string{"tProtocol"}},
+	{dir: "proto/thriftproto", typ: "tBinaryProto", all: true, fields: []string{"tProtocol"}},
+	{dir: "proto/thriftproto", typ: "tStructProto", all: true, fields: []string{"tProtocol"}},
+	// the other protocol objects (one per socket, shared by its reader and all writers): every field
+	{dir: "socket", typ: "rawProto", all: true, fields: []string{"r", "w"}},
+	{dir: "proto/jsonproto", typ: "jsonproto", all: true, fields: []string{"rw"}},
+	{dir: "proto/pbproto", typ: "pbproto", all: true, fields: []string{"rw"}},
+	{dir: "proto/httproto", typ: "httproto", all: true, fields: []string{"rw"}},
 	{dir: "utils", typ: "ReadCounter", fields: []string{"count"}},
 	{dir: "utils", typ: "WriteCounter", fields: []string{"count"}},
 }
@@ -228,14 +241,47 @@ func genGuards(r *Repo) (sites []gSite, unresolved []gUnres, missing []string) {
 	seen := map[string]bool{}
 	seenU := map[string]bool{}
 	fieldHasSite := map[string]bool{}
+	// expand `all` watches to the struct's current field list (minus its synchronisation objects)
+	watches := make([]guardWatch, len(guardWatches))
+	copy(watches, guardWatches)
+	for i, w := range watches {
+		if !w.all {
+			continue
+		}
+		p := r.Pkg(w.dir)
+		if p.Err != nil {
+			continue
+		}
+		st := guardUnderlyingStruct(p, w.typ)
+		if st == nil {
+			continue // reported below
+		}
+		fs := append([]string{}, w.fields...)
+		have := map[string]bool{}
+		for _, f := range fs {
+			have[f] = true
+		}
+		for _, fl := range st.Fields.List {
+			if isSyncObjectType(fl.Type) {
+				continue
+			}
+			for _, n := range StructFieldNames(&ast.StructType{Fields: &ast.FieldList{List: []*ast.Field{fl}}}) {
+				if !have[n] {
+					have[n] = true
+					fs = append(fs, n)
+				}
+			}
+		}
+		watches[i].fields = fs
+	}
 	for _, dir := range dirList {
 		p := r.Pkg(dir)
 		if p.Err != nil || len(p.Files) == 0 {
 			missing = append(missing, fmt.Sprintf("package dir '%s' unreadable or empty: %v", dir, p.Err))
 			continue
 		}
-		px := newGuardPkg(p, dir)
-		for _, w := range guardWatches {
+		px := newGuardPkg(p, dir, watches)
+		for _, w := range watches {
 			if w.dir != dir {
 				continue
 			}
@@ -262,16 +308,40 @@ func genGuards(r *Repo) (sites []gSite, unresolved []gUnres, missing []string) {
 		for _, f := range p.Files {
 			file := filepath.Join(dir, filepath.Base(p.Fset.Position(f.Pos()).Filename))
 			for _, d := range f.Decls {
-				fd, ok := d.(*ast.FuncDecl)
-				if !ok || fd.Body == nil {
+				fw := &guardFuncWalk{px: px, file: file}
+				switch fd := d.(type) {
+				case *ast.FuncDecl:
+					if fd.Body == nil {
+						continue
+					}
+					name := fd.Name.Name
+					if rt := recvTypeName(fd); rt != "" {
+						name = rt + "." + name
+					}
+					fw.walkFunc(name, fd.Recv, fd.Type, fd.Body, nil)
+				case *ast.GenDecl:
+					// package-level `var X = func(...) {...}` (e.g. socket.RawProtoFunc): the literal is a
+					// function of its own, named `X$lit`
+					if fd.Tok != token.VAR {
+						continue
+					}
+					for _, sp := range fd.Specs {
+						vs, ok := sp.(*ast.ValueSpec)
+						if !ok {
+							continue
+						}
+						for i, v := range vs.Values {
+							vname := "_"
+							if i < len(vs.Names) {
+								vname = vs.Names[i].Name
+							}
+							c := &guardCtx{fw: fw, name: vname, env: guardEnv{}, nlits: map[string]int{}}
+							c.expr(lockSet{}, v)
+						}
+					}
+				default:
 					continue
 				}
-				name := fd.Name.Name
-				if rt := recvTypeName(fd); rt != "" {
-					name = rt + "." + name
-				}
-				fw := &guardFuncWalk{px: px, file: file}
-				fw.walkFunc(name, fd.Recv, fd.Type, fd.Body, nil)
 				for _, s := range fw.sites {
 					fieldHasSite[s.Field] = true
 					if k := s.key(); !seen[k] {
@@ -289,7 +359,7 @@ func genGuards(r *Repo) (sites []gSite, unresolved []gUnres, missing []string) {
 			}
 		}
 	}
-	for _, w := range guardWatches {
+	for _, w := range watches {
 		for _, f := range w.fields {
 			if !fieldHasSite[w.typ+"."+f] {
 				missing = append(missing, "no access site found for "+w.typ+"."+f)
@@ -341,7 +411,40 @@ func baseTypeName(e ast.Expr) string {
 	return ""
 }
 
-func newGuardPkg(p *Pkg, dir string) *guardPkg {
+// guardUnderlyingStruct: the struct type of `name`, following one `type T U` step inside the package.
+func guardUnderlyingStruct(p *Pkg, name string) *ast.StructType {
+	if st := p.Struct(name); st != nil {
+		return st
+	}
+	for _, f := range p.Files {
+		for _, d := range f.Decls {
+			gd, ok := d.(*ast.GenDecl)
+			if !ok || gd.Tok != token.TYPE {
+				continue
+			}
+			for _, sp := range gd.Specs {
+				ts := sp.(*ast.TypeSpec)
+				if id, ok := ts.Type.(*ast.Ident); ok && ts.Name.Name == name {
+					return p.Struct(id.Name)
+				}
+			}
+		}
+	}
+	return nil
+}
+
+// isSyncObjectType: sync.Mutex / sync.RWMutex (the locks themselves) and sync.WaitGroup (watched through
+// call patterns, its own methods synchronise internally).
+func isSyncObjectType(e ast.Expr) bool {
+	switch baseTypeName(e) {
+	case "sync.Mutex", "sync.RWMutex", "sync.WaitGroup":
+		_, ptr := e.(*ast.StarExpr)
+		return !ptr
+	}
+	return false
+}
+
+func newGuardPkg(p *Pkg, dir string, watches []guardWatch) *guardPkg {
 	g := &guardPkg{p: p, dir: dir, fieldType: map[string]map[string]string{}, structs: map[string]bool{},
 		funcRes: map[string][]string{}, methods: map[string]map[string]bool{}, watched: map[string]map[string]bool{},
 		watchedAny: map[string]bool{}, promoted: map[string]map[string]string{}, defined: map[string]string{}}
@@ -408,7 +511,7 @@ func newGuardPkg(p *Pkg, dir string) *guardPkg {
 			g.fieldType[t] = m
 		}
 	}
-	for _, w := range guardWatches {
+	for _, w := range watches {
 		if w.dir != dir {
 			continue
 		}
